@@ -1,0 +1,376 @@
+//go:build verif
+// +build verif
+
+package scipipe
+
+// Verification hooks (only compiled with -tags verif). Every call site is an
+// added one-liner vhook(point, key, value, ...). A hook
+//   1. appends one JSON line to $VERIF_TRACE (global sequence number taken
+//      under one mutex, goroutine id, monotonic timestamp; one write(2) on an
+//      O_APPEND descriptor, so a SIGKILL loses nothing already emitted),
+//   2. kills the whole process group if $VERIF_CRASH matches the event,
+//   3. blocks on scheduler gates listed in $VERIF_SCHED,
+//   4. yields / sleeps pseudo-randomly when $VERIF_JITTER is set.
+// Without the tag (verif_off.go) vhook is an empty function.
+
+import (
+	"bytes"
+	"encoding/json"
+	"fmt"
+	"os"
+	"runtime"
+	"sort"
+	"strconv"
+	"strings"
+	"sync"
+	"syscall"
+	"time"
+)
+
+type vCrashSpec struct {
+	point string
+	match string // substring that has to occur in the serialized event ("" = any)
+	n     int    // occurrence number (1-based)
+	seen  int
+}
+
+type vGate struct {
+	point  string
+	match  string
+	occ    int
+	seen   int
+	passed bool
+}
+
+var (
+	vMu       sync.Mutex
+	vInitOnce sync.Once
+	vFile     *os.File
+	vSeq      int64
+	vStart    = time.Now()
+	vCrash    []*vCrashSpec
+	vGates    []*vGate
+	vGateCond = sync.NewCond(&vMu)
+	vGateWait = 1500 * time.Millisecond
+	vJitter   uint64
+	vJitterOn bool
+	vJitterMx int64 = 300 // max sleep in microseconds
+)
+
+func vInit() {
+	if p := os.Getenv("VERIF_TRACE"); p != "" {
+		f, err := os.OpenFile(p, os.O_CREATE|os.O_WRONLY|os.O_APPEND, 0644)
+		if err == nil {
+			vFile = f
+		} else {
+			fmt.Fprintln(os.Stderr, "verif: cannot open trace file:", err)
+		}
+	}
+	// VERIF_CRASH = point[@substring]#n ; several separated by ';'
+	if c := os.Getenv("VERIF_CRASH"); c != "" {
+		for _, one := range strings.Split(c, ";") {
+			if one == "" {
+				continue
+			}
+			cs := &vCrashSpec{n: 1}
+			if i := strings.LastIndex(one, "#"); i >= 0 {
+				cs.n, _ = strconv.Atoi(one[i+1:])
+				one = one[:i]
+			}
+			if i := strings.Index(one, "@"); i >= 0 {
+				cs.match = one[i+1:]
+				one = one[:i]
+			}
+			cs.point = one
+			vCrash = append(vCrash, cs)
+		}
+	}
+	// VERIF_SCHED = point[@substring][#occ],... : entry i may only pass after entries < i
+	if s := os.Getenv("VERIF_SCHED"); s != "" {
+		for _, one := range strings.Split(s, ",") {
+			if one == "" {
+				continue
+			}
+			g := &vGate{occ: 1}
+			if i := strings.LastIndex(one, "#"); i >= 0 {
+				g.occ, _ = strconv.Atoi(one[i+1:])
+				one = one[:i]
+			}
+			if i := strings.Index(one, "@"); i >= 0 {
+				g.match = one[i+1:]
+				one = one[:i]
+			}
+			g.point = one
+			vGates = append(vGates, g)
+		}
+	}
+	if w := os.Getenv("VERIF_GATE_MS"); w != "" {
+		if ms, err := strconv.Atoi(w); err == nil {
+			vGateWait = time.Duration(ms) * time.Millisecond
+		}
+	}
+	if j := os.Getenv("VERIF_JITTER"); j != "" {
+		if s, err := strconv.ParseUint(j, 10, 64); err == nil {
+			vJitter = s*2654435761 + 88172645463325252
+			vJitterOn = true
+		}
+	}
+	if j := os.Getenv("VERIF_JITTER_US"); j != "" {
+		if us, err := strconv.ParseInt(j, 10, 64); err == nil && us > 0 {
+			vJitterMx = us
+		}
+	}
+}
+
+func vGoID() int64 {
+	var buf [64]byte
+	n := runtime.Stack(buf[:], false)
+	// "goroutine 123 [running]:..."
+	b := buf[:n]
+	b = bytes.TrimPrefix(b, []byte("goroutine "))
+	i := bytes.IndexByte(b, ' ')
+	if i < 0 {
+		return -1
+	}
+	id, _ := strconv.ParseInt(string(b[:i]), 10, 64)
+	return id
+}
+
+// vTask returns a stable, human-readable key of a task: process name, in-paths
+// by port, sub-stream member paths, params, tags.
+func vTask(t *Task) string {
+	if t == nil {
+		return ""
+	}
+	var sb strings.Builder
+	sb.WriteString(t.Name)
+	ports := []string{}
+	for k := range t.InIPs {
+		ports = append(ports, k)
+	}
+	sort.Strings(ports)
+	for _, k := range ports {
+		if ms, ok := t.subStreamIPs[k]; ok {
+			sb.WriteString("|" + k + "=[")
+			for i, m := range ms {
+				if i > 0 {
+					sb.WriteString(",")
+				}
+				sb.WriteString(m.Path())
+			}
+			sb.WriteString("]")
+			continue
+		}
+		sb.WriteString("|" + k + "=" + t.InIPs[k].Path())
+	}
+	ps := []string{}
+	for k := range t.Params {
+		ps = append(ps, k)
+	}
+	sort.Strings(ps)
+	for _, k := range ps {
+		sb.WriteString("|p:" + k + "=" + t.Params[k])
+	}
+	return sb.String()
+}
+
+// vOuts returns the declared output paths of a task by port ("port=path;...";
+// streaming ports are marked with a trailing '*').
+func vOuts(t *Task) string {
+	ports := []string{}
+	for k := range t.OutIPs {
+		ports = append(ports, k)
+	}
+	sort.Strings(ports)
+	parts := []string{}
+	for _, k := range ports {
+		s := k + "=" + t.OutIPs[k].Path()
+		if t.OutIPs[k].doStream {
+			s += "*"
+		}
+		parts = append(parts, s)
+	}
+	return strings.Join(parts, ";")
+}
+
+func vNames(m map[string]WorkflowProcess) string {
+	ns := []string{}
+	for k := range m {
+		ns = append(ns, k)
+	}
+	sort.Strings(ns)
+	return strings.Join(ns, ",")
+}
+
+func vhook(point string, kv ...interface{}) {
+	vInitOnce.Do(vInit)
+	if vFile == nil && vCrash == nil && vGates == nil && !vJitterOn {
+		return
+	}
+	gid := vGoID()
+
+	ev := map[string]interface{}{"ev": point, "g": gid}
+	for i := 0; i+1 < len(kv); i += 2 {
+		ev[fmt.Sprint(kv[i])] = kv[i+1]
+	}
+
+	vMu.Lock()
+	// --- scheduler gates: wait until all earlier entries have passed -------
+	if vGates != nil {
+		flat := ""
+		for gi, g := range vGates {
+			if g.passed || g.point != point {
+				continue
+			}
+			if g.match != "" {
+				if flat == "" {
+					b, _ := json.Marshal(ev)
+					flat = string(b)
+				}
+				if !strings.Contains(flat, g.match) {
+					continue
+				}
+			}
+			g.seen++
+			if g.seen != g.occ {
+				continue
+			}
+			deadline := time.Now().Add(vGateWait)
+			for {
+				ready := true
+				for _, e := range vGates[:gi] {
+					if !e.passed {
+						ready = false
+						break
+					}
+				}
+				if ready {
+					break
+				}
+				if time.Now().After(deadline) {
+					// real synchronisation forbids this order: mark the
+					// earlier entries infeasible and go on
+					for ei, e := range vGates[:gi] {
+						if !e.passed {
+							e.passed = true
+							vEmitLocked(map[string]interface{}{"ev": "gate.infeasible", "g": gid, "entry": ei, "point": e.point})
+						}
+					}
+					break
+				}
+				// timed wait: wake up regularly to check the deadline
+				t := time.AfterFunc(20*time.Millisecond, func() { vGateCond.Broadcast() })
+				vGateCond.Wait()
+				t.Stop()
+			}
+			g.passed = true
+			vGateCond.Broadcast()
+			break
+		}
+	}
+	// --- emit ----------------------------------------------------------------
+	vEmitLocked(ev)
+	// --- crash injection -----------------------------------------------------
+	if vCrash != nil {
+		flat := ""
+		for _, cs := range vCrash {
+			if cs.point != point {
+				continue
+			}
+			if cs.match != "" {
+				if flat == "" {
+					b, _ := json.Marshal(ev)
+					flat = string(b)
+				}
+				if !strings.Contains(flat, cs.match) {
+					continue
+				}
+			}
+			cs.seen++
+			if cs.seen == cs.n {
+				vEmitLocked(map[string]interface{}{"ev": "crash", "g": gid, "at": point})
+				// kill the whole process group (children included); never returns
+				syscall.Kill(0, syscall.SIGKILL)
+				syscall.Kill(os.Getpid(), syscall.SIGKILL)
+				select {}
+			}
+		}
+	}
+	var sleep time.Duration
+	if vJitterOn {
+		vJitter ^= vJitter << 13
+		vJitter ^= vJitter >> 7
+		vJitter ^= vJitter << 17
+		r := vJitter % 8
+		if r < 3 {
+			sleep = time.Duration(int64(vJitter>>8)%vJitterMx) * time.Microsecond
+		} else if r < 5 {
+			sleep = -1
+		}
+	}
+	vMu.Unlock()
+	if sleep > 0 {
+		time.Sleep(sleep)
+	} else if sleep < 0 {
+		runtime.Gosched()
+	}
+}
+
+func vEmitLocked(ev map[string]interface{}) {
+	if vFile == nil {
+		return
+	}
+	vSeq++
+	ev["seq"] = vSeq
+	ev["ts"] = time.Since(vStart).Nanoseconds()
+	b, err := json.Marshal(ev)
+	if err != nil {
+		return
+	}
+	b = append(b, '\n')
+	vFile.Write(b)
+}
+
+// Port-name helpers that never fail (ports created without a process in tests).
+func vInName(pt *InPort) string {
+	if pt.process == nil {
+		return "?." + pt.name
+	}
+	return pt.process.Name() + "." + pt.name
+}
+
+func vOutName(pt *OutPort) string {
+	if pt.process == nil {
+		return "?." + pt.name
+	}
+	return pt.process.Name() + "." + pt.name
+}
+
+func vPInName(pt *InParamPort) string {
+	if pt.process == nil {
+		return "?." + pt.name
+	}
+	return pt.process.Name() + "." + pt.name
+}
+
+func vPOutName(pt *OutParamPort) string {
+	if pt.process == nil {
+		return "?." + pt.name
+	}
+	return pt.process.Name() + "." + pt.name
+}
+
+// vSinkUps lists the out-ports (file and param) connected to the workflow sink.
+func vSinkUps(wf *Workflow) string {
+	ns := []string{}
+	if wf.sink != nil {
+		for k := range wf.sink.inPorts["sink_in"].RemotePorts {
+			ns = append(ns, k)
+		}
+		for k := range wf.sink.inParamPorts["param_sink_in"].RemotePorts {
+			ns = append(ns, "p:"+k)
+		}
+	}
+	sort.Strings(ns)
+	return strings.Join(ns, ",")
+}
